@@ -48,13 +48,15 @@ def main(tier):
               'pyvc executor semantics of the Python subset (DESIGN 2.1), cross-checked against CPython by native replay of every counterexample and by the bounded harness evaluating the same contracts')
     chk.assume('block_name inversion is proved under the generator-established shapes: conventions 0/3 third column character not a digit; convention 1 third layer character not a digit; convention 2 column name a right-justified numeral',
                'int_to_chars recursion is inlined (depth <= 4 for numbers <= 20000); numbers above 20000 are outside the quantifier',
-               'custom alphabets: injectivity proved for symbolic distinct alphabets of 3 letters and for the 26-letter default; other sizes bounded')
+               'custom alphabets: injectivity proved for symbolic distinct alphabets of 3 letters and for the 26-letter default; other sizes bounded',
+               'constructed geometries: two concrete shapes with symbolic numeric content per (convention, atmosphere type, justification / case); names do not depend on the numeric content')
     chk.explanation = (
         'clause -> evidence: (a) fix idempotent, unfix returns the simulator (a3,i2) form, one write/read cycle is stable, '
         'fix/unfix change only the 4th character: PROVED for all 95^5 printable names (z3 over character vectors, real source). '
         '(b) column/layer part of block_name inverts under every convention: PROVED for all names of the convention shape. '
         '(c) generated column/node/layer names have the convention length, are pairwise distinct, and NamingConventionError '
         'is raised exactly beyond capacity: PROVED for all numbers 1..20000 (symbolic pairs a<b), default alphabet, both justifications. '
-        '(d) every constructed geometry has distinct 5-character block names: BOUNDED (constructors across capacity limits), not proved - '
-        'the constructors are heap-building loops outside the executor subset.')
+        '(d) every constructed geometry has distinct 5-character block names whose column and layer parts give back the column and layer: PROVED for geometries built by the real '
+        'mulgrid.rectangular (run by the executor, symbolic spacings and origin) of 3x2x3 and 12x1x2 blocks under the 4 conventions x 3 atmosphere types x right/lower and left/upper-case names (48 programs); '
+        'sizes crossing the capacity limits (99 layers, 99 / 999 columns, letter name spaces) are BOUNDED (constructor enumeration).')
     return chk.finish()
